@@ -192,6 +192,7 @@ type Spec struct {
 	Encl   string `json:"encl,omitempty"`   // "" | closure | generic: shape of the enclosing function
 	Paren  bool   `json:"paren,omitempty"`  // top-level options written in parentheses
 	Extra  int    `json:"extra,omitempty"`  // number of trivial extra directives in the same function (1: before, 2: before and after)
+	Stmt   string `json:"stmt,omitempty"`   // statement holding the directive: "" (assignment) | ifinit | switch | arg | field | tuple
 
 	// ModSubset marks flows inside the modifier-mode supported subset.
 	ModSubset bool `json:"modsubset,omitempty"`
